@@ -15,21 +15,30 @@
 (*     two transcriptions, of what the property demands: the probes (whole *)
 (*     value / every word / every leading path / existence) that must find *)
 (*     the document.                                                       *)
+(*   - a transcription of the mapping conversion seq/mapping.go            *)
+(*     (convertMapping, convertMappingWithMultipleTypes): the DECLARED     *)
+(*     mapping (the YAML tree) is what a configuration consists of; both   *)
+(*     sides read the converted map (indexer: titles of MappingTypes.All,  *)
+(*     parser: type of Mapping[field].Main).                               *)
 (* TLC decides at class level  OwnContentFindsIt, NoUnproducibleToken,     *)
-(* RenderLexRoundTrip, LowerShortcutSound, DeviationIsExact for every      *)
-(* class sequence x                                                        *)
-(* mapping shape x type x case sensitivity x limits x partial indexing of  *)
-(* the scope, and emits every state as a CASE (expected index tokens, the  *)
+(* RenderLexRoundTrip, LowerShortcutSound, NoCutRune, CutIgnoresIvKind for *)
+(* every class sequence x                                                  *)
+(* mapping shape (top level / inside object, tags, nested; single- or      *)
+(* multi-type; old or `types:` declaration) x type x case sensitivity x    *)
+(* limits x partial indexing of                                            *)
+(* the scope, and emits every state as a CASE (declared mapping, expected  *)
+(* converted mapping and index tokens, the                                 *)
 (* probes with their rendering in every admissible quoting style and       *)
 (* whether the property demands the hit).  harness/cmd/tokenize replays    *)
-(* the cases into the real bulk indexer / parser / pattern.Search.         *)
+(* the cases into the real seq.ReadMapping / bulk indexer / parser /       *)
+(* pattern.Search.                                                         *)
 (***************************************************************************)
 EXTENDS Integers, Sequences, FiniteSets, TLC, Json
 
 CONSTANTS Alphabet,   \* subset of Classes the values are built from
           MaxLen,     \* values have <= MaxLen characters
           MinLen,     \* configurations are attached to values of >= MinLen characters (simulation: = MaxLen)
-          Shapes,     \* subset of {"flat", "obj", "multi"}
+          Shapes,     \* subset of {"flat", "multi", "obj", "objmulti", "tags", "tagsmulti", "nested", "nestedmulti"}
           LimMode,    \* "all": every byte limit 1..len; "prod": additionally word limit x field limit for text; "none"
           Firsts,     \* classes allowed as first character (splits a large scope into several TLC runs)
           Sample      \* TRUE (with -simulate): one random configuration per value instead of all of them
@@ -40,7 +49,7 @@ vars == <<val, cfg>>
 \* ---------------------------------------------------------------- character classes
 \* class : width in bytes of its members : meaning               (palette: harness/cmd/tokenize/main.go)
 Classes == {"lo", "up", "dg", "us", "st", "sp", "dd", "sl", "dq", "sq", "bt", "bs",
-            "nl", "nu", "d2", "d3", "nd", "no", "ns", "iv"}
+            "nl", "nu", "d2", "d3", "nd", "no", "ns", "iv", "l4", "u4", "n4", "s4"}
 W == [lo |-> 1,   \* ASCII lower-case letter
       up |-> 1,   \* ASCII upper-case letter
       dg |-> 1,   \* ASCII digit
@@ -60,16 +69,23 @@ W == [lo |-> 1,   \* ASCII lower-case letter
       nd |-> 2,   \* non-ASCII decimal digit (category Nd)
       no |-> 3,   \* non-ASCII number that is not a decimal digit (No, Nl; may have a case pair: roman numerals)
       ns |-> 3,   \* non-ASCII rune that is neither letter nor number
-      iv |-> 1]   \* a byte that is not valid UTF-8
-Word   == {"lo", "up", "dg", "us", "st", "nl", "nu", "d2", "d3", "nd", "no"}   \* letters, numbers, '_', '*'
-Cased  == {"up", "nu", "d2", "d3", "no", "ns"}                                 \* lower-casing may change the rune (some members)
+      iv |-> 1,   \* a byte that is not valid UTF-8 (palette: invalid lead bytes AND lone continuation bytes)
+      l4 |-> 4,   \* 4-byte (supplementary plane) letter, lower-case or without a lower-case mapping
+      u4 |-> 4,   \* 4-byte upper-case letter; every such letter has a 4-byte lower case (Deseret, Osage, Adlam ...)
+      n4 |-> 4,   \* 4-byte decimal digit (category Nd)
+      s4 |-> 4]   \* 4-byte rune that is neither letter nor number (emoji, musical symbols, tags)
+Word   == {"lo", "up", "dg", "us", "st", "nl", "nu", "d2", "d3", "nd", "no", "l4", "u4", "n4"}   \* letters, numbers, '_', '*'
+Cased  == {"up", "nu", "d2", "d3", "no", "ns", "u4"}                           \* lower-casing may change the rune (some members)
 DiffW  == {"d2", "d3"}                                                         \* ... and its width
-BareOK == {"lo", "up", "dg", "us", "dd", "nl", "nu", "d2", "d3", "nd"}         \* isTokenRune or '-'
+BareOK == {"lo", "up", "dg", "us", "dd", "nl", "nu", "d2", "d3", "nd", "l4", "u4", "n4"}   \* isTokenRune or '-'
+UTFMax == 4       \* utf8.UTFMax: no class is wider
+LookBack == UTFMax - 1   \* how far runeAlignedCut looks back for the lead byte (overridden in Tokenize_mut_lookback.cfg)
 ChOf   == [st |-> "*", sl |-> "/", dq |-> "\"", sq |-> "'", bt |-> "`", bs |-> "\\"]
 Fixed  == DOMAIN ChOf
 Big    == 64      \* a limit no value of the scope reaches (stands for MaxTokenSize=72 / MaxTextFieldValueLength=32Ki)
 
 ASSUME Alphabet \subseteq Classes
+ASSUME \A k \in Classes : W[k] \in 1..UTFMax
 ASSUME PrintT(<<"TABLE", ToJson([w |-> W, word |-> Word, cased |-> Cased, diffw |-> DiffW, bare |-> BareOK, ch |-> ChOf, big |-> Big])>>)
 
 \* ---------------------------------------------------------------- helpers
@@ -89,6 +105,22 @@ CutTo(bs, lim) == SubSeq(bs, 1, IF Len(bs) < lim THEN Len(bs) ELSE lim)   \* val
 
 \* utf8.DecodeRune(bs[i:]) yields a rune (not RuneError) iff i is the lead byte of a valid character whose bytes are all present
 Complete(bs, i) == bs[i][2] = 1 /\ CellCls(bs[i]) # "iv" /\ i + W[CellCls(bs[i])] - 1 <= Len(bs)
+
+\* tokenizer/tokenizer.go:runeAlignedCut(value, n): n, or the start of the valid multi-byte rune that n would cut in the middle.
+\* bs is the WHOLE value (DecodeRune sees the bytes behind n), n the number of bytes to keep.  Go looks at p = n-1 .. n-(UTFMax-1)
+\* (0-based), here q = p + 1.  utf8.RuneStart is true for every byte that is not a continuation byte: for an invalid byte of the
+\* document it depends on the byte (ivStart); CutIgnoresIvKind shows that the result does not.
+RuneStart(cell, ivStart) == IF CellCls(cell) = "iv" THEN ivStart ELSE cell[2] = 1
+RuneAlignedCut(bs, n, ivStart) ==
+  IF n >= Len(bs) THEN n
+  ELSE LET RECURSIVE back(_)
+           back(q) == IF q < 1 \/ q < n - LookBack + 1 THEN n
+                      ELSE IF RuneStart(bs[q], ivStart)
+                             THEN (IF Complete(bs, q) /\ q - 1 + W[CellCls(bs[q])] > n THEN q - 1 ELSE n)    \* found / break
+                      ELSE back(q - 1)
+       IN back(n)
+\* value[:runeAlignedCut(value, min(len(value), lim))]
+CutAligned(bs, lim) == SubSeq(bs, 1, RuneAlignedCut(bs, IF Len(bs) < lim THEN Len(bs) ELSE lim, TRUE))
 
 \* An atom <<e, b, f>>: b = 0 - the whole character e; b > 0 - the stray byte b of character e (invalid UTF-8).
 \* f = "r" as in the document, "l" lower-cased, "x" replaced by U+FFFD.
@@ -116,12 +148,12 @@ ToLowerIfCI(cs, s) == IF cs THEN s ELSE ToLowerTryInplace(s)
 \* tokenizer/keyword_tokenizer.go:Tokenize
 KeywordTok(bs, lim, partial, cs) ==
   IF Len(bs) > lim /\ ~partial THEN <<>>
-  ELSE << ToLowerIfCI(cs, Atoms(CutTo(bs, lim))) >>
+  ELSE << ToLowerIfCI(cs, Atoms(CutAligned(bs, lim))) >>
 
 \* tokenizer/path_tokenizer.go:Tokenize
 PathTok(bs, lim, partial, cs) ==
   IF Len(bs) > lim /\ ~partial THEN <<>>
-  ELSE LET v == CutTo(bs, lim)
+  ELSE LET v == CutAligned(bs, lim)
            IsSep(p) == CellCls(v[p]) = "sl"
            \* i starts behind a leading separator; every further separator position p yields value[:p]
            seps == {p \in 2..Len(v) : IsSep(p)}
@@ -176,45 +208,91 @@ Tokenize(typ, ms, c) ==
     [] typ = "text"    -> TextTok(Bytes(val), IF ms = 0 THEN Big ELSE ms, c.mt, c.partial, c.cs)
     [] OTHER           -> <<>>                                                     \* exists tokenizer
 
-\* ---------------------------------------------------------------- index side: mapping, document, proxy/bulk/indexer.go
-Single(t, title, ms) == [main |-> t, all |-> << [title |-> title, typ |-> t, ms |-> ms] >>]
-\* seq.Mapping for the three shapes (multi = seq/mapping.go:convertMappingWithMultipleTypes of text + keyword + path)
-MappingOf(c) ==
-  CASE c.shape = "flat"  -> [n \in {"Fld", "Uid"} |-> IF n = "Uid" THEN Single("keyword", "", Big) ELSE Single(c.typ, "", c.ms)]
-    [] c.shape = "obj"   -> [n \in {"Ob", "Ob.Mem", "Uid"} |-> IF n = "Uid" THEN Single("keyword", "", Big)
-                                                                 ELSE IF n = "Ob" THEN Single("object", "", 0) ELSE Single(c.typ, "", c.ms)]
-    [] c.shape = "multi" -> [n \in {"Fld", "Fld.kw", "Fld.pa", "Uid"} |->
-                               IF n = "Uid" THEN Single("keyword", "", Big)
-                               ELSE IF n = "Fld" THEN [main |-> "text",
-                                                       all |-> << [title |-> "Fld", typ |-> "text", ms |-> 0],
-                                                                  [title |-> "Fld.kw", typ |-> "keyword", ms |-> c.ms],
-                                                                  [title |-> "Fld.pa", typ |-> "path", ms |-> c.ms] >>]
-                               ELSE IF n = "Fld.kw" THEN Single("keyword", "Fld.kw", c.ms) ELSE Single("path", "Fld.pa", c.ms)]
-\* the document: every string leaf holds the value; "Zz" is not in the mapping
-Leaf(n) == [n |-> n, obj |-> FALSE, sub |-> <<>>]
-DocOf(c) == IF c.shape = "obj" THEN << [n |-> "Ob", obj |-> TRUE, sub |-> <<Leaf("Mem"), Leaf("Zz")>>], Leaf("Zz") >>
-            ELSE << Leaf("Fld"), Leaf("Zz") >>
+\* ---------------------------------------------------------------- the declared mapping and seq/mapping.go
+Container(shape) == CASE shape \in {"obj", "objmulti"}       -> "object"
+                      [] shape \in {"tags", "tagsmulti"}     -> "tags"
+                      [] shape \in {"nested", "nestedmulti"} -> "nested"
+                      [] OTHER                               -> "none"
+IsMulti(shape) == shape \in {"multi", "objmulti", "tagsmulti", "nestedmulti"}
+ContName(k) == CASE k = "object" -> "Ob" [] k = "tags" -> "Tg" [] k = "nested" -> "Ns" [] OTHER -> ""
+\* an element of a `mapping-list` (seq/mapping.go:mappingItem): either the old form `name, type` (+ `mapping-list` of a container) or
+\* `name, types: [{title, type, size}]`; a size can only be declared in the second form
+TypeIn(title, typ, size) == [title |-> title, typ |-> typ, size |-> size]
+ItemOld(name, typ, sub) == [name |-> name, typ |-> typ, types |-> <<>>, sub |-> sub]
+ItemTypes(name, types)  == [name |-> name, typ |-> "", types |-> types, sub |-> <<>>]
+MultiTypes(c) == LET main == TypeIn("", "text", 0)  kw == TypeIn("kw", "keyword", c.ms)  pa == TypeIn("pa", "path", c.ms)
+                 IN IF c.mainpos = 1 THEN <<main, kw, pa>> ELSE <<kw, pa, main>>
+Member(name, c) == IF IsMulti(c.shape) THEN ItemTypes(name, MultiTypes(c))
+                   ELSE IF c.decl = "old" THEN ItemOld(name, c.typ, <<>>)
+                   ELSE ItemTypes(name, <<TypeIn("", c.typ, c.ms)>>)
+Declared(c) == LET k == Container(c.shape)
+                   uid == ItemTypes("Uid", <<TypeIn("", "keyword", Big)>>)
+               IN IF k = "none" THEN <<Member("Fld", c), uid>>
+                  ELSE <<ItemOld(ContName(k), k, <<Member("Mem", c)>>), uid>>
 
-\* indexer.index: every type of the field that has a tokenizer contributes its tokens and one _exists_ token
-IndexField(mt, key, c) ==
+\* seq.NewSingleType
+Single(t, title, ms) == [main |-> t, all |-> << [title |-> title, typ |-> t, ms |-> ms] >>]
+\* seq/mapping.go:convertMappingWithMultipleTypes - the map assignments <<key, MappingTypes>> in program order.
+\* The untitled type is the main one and is indexed under the full dotted name fn (MainTitle; overridden in Tokenize_mut_title.cfg).
+MainTitle(fn, el) == fn
+ConvertTypes(fn, el) ==
+  LET ts == el.types
+      titleOf(t) == IF t.title = "" THEN MainTitle(fn, el) ELSE fn \o "." \o t.title
+      main == ts[CHOOSE i \in 1..Len(ts) : ts[i].title = ""]              \* duplicates of a title are rejected: exactly one
+      secondary == Concat([i \in 1..Len(ts) |->
+                      IF ts[i].title = "" THEN <<>> ELSE << <<titleOf(ts[i]), Single(ts[i].typ, titleOf(ts[i]), ts[i].size)>> >>])
+  IN secondary \o << <<fn, [main |-> main.typ, all |-> [i \in 1..Len(ts) |-> [title |-> titleOf(ts[i]), typ |-> ts[i].typ, ms |-> ts[i].size]]]>> >>
+\* seq/mapping.go:convertMapping
+RECURSIVE ConvertItems(_, _)
+ConvertItems(items, path) ==
+  IF items = <<>> THEN <<>>
+  ELSE LET el == Head(items)
+           fn == Join(path, el.name)
+           here == IF el.types # <<>> THEN ConvertTypes(fn, el) ELSE << <<fn, Single(el.typ, "", 0)>> >>
+           below == IF el.typ \in {"object", "tags", "nested"} THEN ConvertItems(el.sub, fn) ELSE <<>>
+       IN here \o below \o ConvertItems(Tail(items), path)
+Assignments(c) == ConvertItems(Declared(c), "")
+\* seq.Mapping: the Go map after all assignments (the last assignment to a key wins)
+MappingOf(c) == LET A == Assignments(c)
+                    last(k) == CHOOSE i \in 1..Len(A) : A[i][1] = k /\ \A j \in (i + 1)..Len(A) : A[j][1] # k
+                IN [k \in {A[i][1] : i \in 1..Len(A)} |-> A[last(k)][2]]
+\* m[name] of a Go map: the zero MappingTypes (TokenizerTypeNoop, no types) for an absent key
+Lookup(M, name) == IF name \in DOMAIN M THEN M[name] ELSE [main |-> "noop", all |-> <<>>]
+
+\* ---------------------------------------------------------------- index side: document, proxy/bulk/indexer.go
+\* the document: every string leaf holds the value; "Zz" is not in the mapping.  object: {"Mem": v, "Zz": v};
+\* tags: [{"key": "Mem", "value": v}, {"key": "Zz", "value": v}]; nested: [{"Mem": v, "Zz": v}] (one element)
+Leaf(n) == [n |-> n, kind |-> "leaf", sub |-> <<>>]
+DocOf(c) == LET k == Container(c.shape) IN
+            IF k = "none" THEN << Leaf("Fld"), Leaf("Zz") >>
+            ELSE << [n |-> ContName(k), kind |-> k, sub |-> <<Leaf("Mem"), Leaf("Zz")>>], Leaf("Zz") >>
+NMetas(c) == IF Container(c.shape) = "nested" THEN 2 ELSE 1
+
+\* indexer.index: every type of the field that has a tokenizer contributes its tokens and one _exists_ token (m: number of the meta)
+IndexField(mt, key, c, m) ==
   Concat([j \in 1..Len(mt.all) |->
      LET tt == mt.all[j] IN
      IF tt.typ \notin {"keyword", "text", "path", "exists"} THEN <<>>
      ELSE LET title == IF tt.title # "" THEN tt.title ELSE key
               toks == Tokenize(tt.typ, tt.ms, c)
-          IN [i \in 1..Len(toks) |-> [key |-> title, a |-> toks[i], lit |-> ""]]
-             \o << [key |-> "_exists_", a |-> <<>>, lit |-> title] >>])
-\* indexer.decodeInternal
-RECURSIVE DecodeFields(_, _, _, _)
-DecodeFields(M, fields, prefix, c) ==
+          IN [i \in 1..Len(toks) |-> [key |-> title, a |-> toks[i], lit |-> "", m |-> m]]
+             \o << [key |-> "_exists_", a |-> <<>>, lit |-> title, m |-> m] >>])
+\* indexer.decodeInternal / decodeTags.  A nested element gets a meta of its own (appendNestedMeta; Index copies the parent's tokens
+\* into it afterwards, which changes nothing for a query on one field: the document is found if one of its metas matches).
+RECURSIVE DecodeFields(_, _, _, _, _)
+DecodeFields(M, fields, prefix, c, m) ==
   IF fields = <<>> THEN <<>>
   ELSE LET f == Head(fields)
            name == Join(prefix, f.n)
-           here == IF name \notin DOMAIN M THEN <<>>                                  \* TokenizerTypeNoop
-                   ELSE IF M[name].main = "object" /\ f.obj THEN DecodeFields(M, f.sub, name, c)
-                   ELSE IndexField(M[name], name, c)
-       IN here \o DecodeFields(M, Tail(fields), prefix, c)
-Index(c) == DecodeFields(MappingOf(c), DocOf(c), "", c)
+           mt == Lookup(M, name)
+           here == IF mt.main = "noop" THEN <<>>                                      \* TokenizerTypeNoop: not in the mapping
+                   ELSE IF mt.main = "object" /\ f.kind = "object" THEN DecodeFields(M, f.sub, name, c, m)
+                   ELSE IF mt.main = "tags" /\ f.kind = "tags"
+                          THEN Concat([j \in 1..Len(f.sub) |-> LET tn == Join(name, f.sub[j].n) IN IndexField(Lookup(M, tn), tn, c, m)])
+                   ELSE IF mt.main = "nested" /\ f.kind = "nested" THEN DecodeFields(M, f.sub, name, c, m + 1)
+                   ELSE IndexField(mt, name, c, m)
+       IN here \o DecodeFields(M, Tail(fields), prefix, c, m)
+Index(c) == DecodeFields(MappingOf(c), DocOf(c), "", c, 0)
 TokensOf(idx, key) == {idx[i].a : i \in {j \in 1..Len(idx) : idx[j].key = key}}
 ExistsOf(idx) == {idx[i].lit : i \in {j \in 1..Len(idx) : idx[j].key = "_exists_"}}
 
@@ -344,35 +422,39 @@ LeadFrom(s, p) == IF p > Len(s) THEN <<>>
                   ELSE (IF AValid(s[p]) /\ ACls(s[p]) = "sl" THEN <<SubSeq(s, 1, p - 1)>> ELSE <<>>) \o LeadFrom(s, p + 1)
 LeadingPaths(s) == LeadFrom(s, 2) \o <<s>>
 
-\* fields the queries address: <<title, type, per-field size>>
-Targets(c) == CASE c.shape = "flat"  -> << <<"Fld", c.typ, c.ms>> >>
-                [] c.shape = "obj"   -> << <<"Ob.Mem", c.typ, c.ms>> >>
-                [] c.shape = "multi" -> << <<"Fld", "text", 0>>, <<"Fld.kw", "keyword", c.ms>>, <<"Fld.pa", "path", c.ms>> >>
+\* fields the queries address: <<title, type, per-field size>>.  Stated from the configuration alone (not from the converted map):
+\* a field is addressed by its dotted path from the root of the document, a secondary type of a multi-type field by path.title
+FieldPath(c) == IF Container(c.shape) = "none" THEN "Fld" ELSE ContName(Container(c.shape)) \o ".Mem"
+Targets(c) == LET F == FieldPath(c) IN
+              IF IsMulti(c.shape) THEN << <<F, "text", 0>>, <<F \o ".kw", "keyword", c.ms>>, <<F \o ".pa", "path", c.ms>> >>
+              ELSE << <<F, c.typ, c.ms>> >>
 HasInvalid(s) == \E i \in 1..Len(s) : ~AValid(s[i])
 \* DESIGN 7/C11: nothing is asserted for an invalid byte OF THE DOCUMENT in a case-sensitive keyword/path token (no query can carry it)
 Exempt(typ, c, s) == c.cs /\ typ \in {"keyword", "path"} /\ \E i \in 1..Len(s) : ACls(s[i]) = "iv"
 \* a rune of a VALID document cut in the middle by partial indexing (stray bytes of a non-iv character)
 CutRune(s) == \E i \in 1..Len(s) : ~AValid(s[i]) /\ ACls(s[i]) # "iv"
 WholeRunes(s) == SelectSeq(s, LAMBDA a : AValid(a) \/ ACls(a) = "iv")        \* the prefix without the cut rune
-\* Deviation D1 of the pinned implementation (keyword/path tokenizers cut value[:maxLength] at a BYTE position): in case-sensitive
-\* mode the token ends in a truncated rune that no literal can denote.  The property still demands the hit (dem), TLC shows that the
-\* transcription misses exactly these probes (DeviationIsExact), the driver reports what the real code does.
-Gap(typ, c, s) == c.cs /\ typ \in {"keyword", "path"} /\ CutRune(s) /\ ~Exempt(typ, c, s)
+\* (Until 29e68dd the keyword/path tokenizers cut value[:maxLength] at a BYTE position and a case-sensitive token could end in a
+\* truncated rune that no literal denotes - deviation D1 of the first version of this module.  The repaired code aligns the cut
+\* (RuneAlignedCut above); the transcription has no deviation left and NoCutRune states the repaired behaviour.)
 \* a2: alternative content that satisfies the same demand ("indexed by their prefix": the byte prefix or the whole-rune prefix)
-Probe(title, typ, kind, a, dem) == [title |-> title, typ |-> typ, kind |-> kind, a |-> a, a2 |-> WholeRunes(a), lit |-> "", dem |-> dem]
+\* typ: the type the configuration declares for the field (decides what is demanded); qt: the type the query side finds for it in
+\* the converted map (parser/query_parser.go:indexType = Mapping[field].Main) - decides how the literal is parsed
+Probe(title, typ, qt, kind, a, dem) == [title |-> title, typ |-> typ, qt |-> qt, kind |-> kind, a |-> a, a2 |-> WholeRunes(a), lit |-> "", dem |-> dem]
 ContentProbes(t, c) ==
   LET title == t[1]  typ == t[2]  ms == t[3]
       vlim == IF typ = "text" THEN (IF ms = 0 THEN Big ELSE ms) ELSE (IF ms = 0 THEN c.mt ELSE ms)
       part == IndexedPart(vlim, c.partial)
+      qt == Lookup(MappingOf(c), title).main
   IN IF ~part[1] THEN <<>>                                                        \* over the limit without partial indexing: skipped
-     ELSE CASE typ = "keyword" -> << Probe(title, typ, "whole", part[2], ~Exempt(typ, c, part[2])) >>
+     ELSE CASE typ = "keyword" -> << Probe(title, typ, qt, "whole", part[2], ~Exempt(typ, c, part[2])) >>
             [] typ = "path"    -> LET lp == LeadingPaths(part[2]) IN
-                                  [i \in 1..Len(lp) |-> Probe(title, typ, "path", lp[i], ~Exempt(typ, c, lp[i]))]
+                                  [i \in 1..Len(lp) |-> Probe(title, typ, qt, "path", lp[i], ~Exempt(typ, c, lp[i]))]
             [] typ = "text"    -> LET ws == SelectSeq(Words(part[2]), LAMBDA w : ByteLen(w) <= c.mt) IN   \* longer words are skipped
-                                  [i \in 1..Len(ws) |-> Probe(title, typ, "word", ws[i], TRUE)]
-                                  \o (IF NBytes(val) = 0 THEN << Probe(title, typ, "empty", <<>>, FALSE) >> ELSE <<>>)
+                                  [i \in 1..Len(ws) |-> Probe(title, typ, qt, "word", ws[i], TRUE)]
+                                  \o (IF NBytes(val) = 0 THEN << Probe(title, typ, qt, "empty", <<>>, FALSE) >> ELSE <<>>)
             [] OTHER           -> <<>>
-ExistsProbe(t) == [title |-> "_exists_", typ |-> "keyword", kind |-> "exists", a |-> <<>>, a2 |-> <<>>, lit |-> t[1], dem |-> TRUE]
+ExistsProbe(t) == [title |-> "_exists_", typ |-> "keyword", qt |-> "keyword", kind |-> "exists", a |-> <<>>, a2 |-> <<>>, lit |-> t[1], dem |-> TRUE]
 Probes(c) == LET T == Targets(c) IN
              Concat([i \in 1..Len(T) |-> ContentProbes(T[i], c) \o <<ExistsProbe(T[i])>>])
 
@@ -380,26 +462,28 @@ StylesFor(p) == IF p.kind = "exists" THEN <<"dq", "sq", "bq", "bare">>
                 ELSE SelectSeq(Styles, LAMBDA s : Admissible(s, p.a))
 AltStyle(style) == IF style = "dqx" THEN "dq" ELSE style
 HasAlt(p) == p.kind # "exists" /\ p.a2 # p.a
+\* parser/query_parser.go:indexType - the type of the queried field is Mapping[field].Main; a field that is absent or mapped as
+\* object/tags/nested/exists cannot be searched by value (the query is rejected)
 ProbeFinds(p, style, c, idx) ==
   \* `_exists_` is a case-sensitive keyword field whatever conf.CaseSensitive says (parseSeqQLFieldFilter): the title as it stands
   IF p.kind = "exists" THEN p.lit \in ExistsOf(idx)
-  ELSE \/ QueryFinds(p.typ, Render(style, p.a), c.cs, TokensOf(idx, p.title))
-       \/ (HasAlt(p) /\ QueryFinds(p.typ, Render(AltStyle(style), p.a2), c.cs, TokensOf(idx, p.title)))
-ProbeGap(p, c) == p.kind # "exists" /\ Gap(p.typ, c, p.a)
+  ELSE /\ p.qt \in {"keyword", "text", "path"}
+       /\ \/ QueryFinds(p.qt, Render(style, p.a), c.cs, TokensOf(idx, p.title))
+          \/ (HasAlt(p) /\ QueryFinds(p.qt, Render(AltStyle(style), p.a2), c.cs, TokensOf(idx, p.title)))
 
 \* ---------------------------------------------------------------- the properties
-NoCfg == [shape |-> "none", typ |-> "", cs |-> FALSE, partial |-> FALSE, mt |-> 0, ms |-> 0]
+NoCfg == [shape |-> "none", typ |-> "", cs |-> FALSE, partial |-> FALSE, mt |-> 0, ms |-> 0, decl |-> "", mainpos |-> 0]
 Active == cfg # NoCfg
 
 \* C11, first sentence: a query made from the document's own content finds it, in every quoting style
 OwnContentFindsItOn(c, idx, P) ==
-  \A i \in 1..Len(P) : (P[i].dem /\ ~ProbeGap(P[i], c)) =>
+  \A i \in 1..Len(P) : P[i].dem =>
      LET S == StylesFor(P[i]) IN S # <<>> /\ \A j \in 1..Len(S) : ProbeFinds(P[i], S[j], c, idx)
-\* ... except deviation D1, which is exactly: case-sensitive, keyword/path, partial indexing cuts a rune - there NO style finds it
-DeviationIsExactOn(c, idx, P) ==
-  \A i \in 1..Len(P) : ProbeGap(P[i], c) =>
-     /\ P[i].dem /\ c.partial /\ c.cs
-     /\ LET S == StylesFor(P[i]) IN \A j \in 1..Len(S) : ~ProbeFinds(P[i], S[j], c, idx)
+\* "indexed by their prefix": no token ends in (or contains) a piece of a character of a valid document - partial indexing cuts
+\* between characters, whatever their width (1..UTFMax bytes) and wherever the limit falls inside them
+NoCutRuneOn(idx) == \A i \in 1..Len(idx) : ~CutRune(idx[i].a)
+\* whether an invalid byte of the document is a lone continuation byte or an invalid lead byte makes no difference to the cut
+CutIgnoresIvKindOn(v) == LET bs == Bytes(v) IN \A n \in 0..Len(bs) : RuneAlignedCut(bs, n, TRUE) = RuneAlignedCut(bs, n, FALSE)
 
 \* C11, second sentence: no token that an own-content query cannot produce (and none at all for unmapped fields, skipped values)
 NoUnproducibleTokenOn(c, idx, P) ==
@@ -409,7 +493,7 @@ NoUnproducibleTokenOn(c, idx, P) ==
      ELSE /\ \E j \in 1..Len(T) : T[j][1] = idx[i].key
           /\ \/ \E j \in 1..Len(P) : /\ P[j].title = idx[i].key /\ P[j].kind # "exists"
                                      /\ ProbeFinds(P[j], "dq", c, <<idx[i]>>)
-             \/ \E j \in 1..Len(T) : T[j][1] = idx[i].key /\ (Exempt(T[j][2], c, idx[i].a) \/ Gap(T[j][2], c, idx[i].a))
+             \/ \E j \in 1..Len(T) : T[j][1] = idx[i].key /\ Exempt(T[j][2], c, idx[i].a)
 
 \* every admissible style is parsed into the same literals as the plain content (so no style changes the meaning)
 RenderLexRoundTripOn(c, P) ==
@@ -423,12 +507,13 @@ LowerShortcutSoundOn(c) ==
   \A fl \in {c.mt, c.ms, Big} : fl > 0 =>
      TextTok(Bytes(val), fl, c.mt, c.partial, c.cs) = TextTokPlain(Bytes(val), fl, c.mt, c.partial, c.cs)
 
-\* the four invariants by name (cfgs Tokenize_named*.cfg) ...
+\* the invariants by name (cfgs Tokenize_named*.cfg) ...
 OwnContentFindsIt   == Active => OwnContentFindsItOn(cfg, Index(cfg), Probes(cfg))
 NoUnproducibleToken == Active => NoUnproducibleTokenOn(cfg, Index(cfg), Probes(cfg))
 RenderLexRoundTrip  == Active => RenderLexRoundTripOn(cfg, Probes(cfg))
 LowerShortcutSound  == Active => LowerShortcutSoundOn(cfg)
-DeviationIsExact    == Active => DeviationIsExactOn(cfg, Index(cfg), Probes(cfg))
+NoCutRune           == Active => NoCutRuneOn(Index(cfg))
+CutIgnoresIvKind    == CutIgnoresIvKindOn(val)
 
 \* ---------------------------------------------------------------- case walk
 LS(b) == IF LimMode = "none" THEN {} ELSE 1..b
@@ -437,19 +522,24 @@ PairsText(b) == PairsKw(b) \cup (IF LimMode = "prod" THEN LS(b) \X LS(b) ELSE {}
 PairsObj(b) == {<<Big, 0>>} \cup (IF b >= 2 /\ LimMode # "none" THEN {<<Big, b - 1>>} ELSE {})    \* flattening is independent of limits
 ValueLim(typ, p) == IF typ = "text" THEN (IF p[2] = 0 THEN Big ELSE p[2]) ELSE (IF p[2] = 0 THEN p[1] ELSE p[2])
 PartialsFor(typ, p, b) == IF ValueLim(typ, p) < b THEN BOOLEAN ELSE {FALSE}
-Mk(shape, typ, cs, pa, p) == [shape |-> shape, typ |-> typ, cs |-> cs, partial |-> pa, mt |-> p[1], ms |-> p[2]]
+Mk(shape, typ, cs, pa, p, decl, mp) == [shape |-> shape, typ |-> typ, cs |-> cs, partial |-> pa, mt |-> p[1], ms |-> p[2], decl |-> decl, mainpos |-> mp]
+\* how the field is declared is independent of the limits: both declaration forms of a single-type field (old `type:` / `types:` with
+\* one untitled entry) and both positions of the main type of a multi-type field are taken at the unlimited pair only; a per-field
+\* size needs the `types:` form
+DeclsFor(shape, p) == IF IsMulti(shape) \/ p[2] # 0 THEN {"types"} ELSE IF p = <<Big, 0>> THEN {"old", "types"} ELSE {"old"}
+MainPosFor(shape, p) == IF IsMulti(shape) /\ p = <<Big, 0>> THEN {1, 3} ELSE {1}
 CfgsOf(shape, typ, pairs, b) ==
-  UNION {{Mk(shape, typ, cs, pa, p) : cs \in BOOLEAN, pa \in PartialsFor(IF shape = "multi" THEN "keyword" ELSE typ, p, b)} : p \in pairs}
+  UNION {{Mk(shape, typ, cs, pa, p, d, mp) : cs \in BOOLEAN, pa \in PartialsFor(IF IsMulti(shape) THEN "keyword" ELSE typ, p, b),
+                                            d \in DeclsFor(shape, p), mp \in MainPosFor(shape, p)} : p \in pairs}
 Cfgs(v) ==
   LET b == NBytes(v) IN
   (IF "flat" \in Shapes
      THEN CfgsOf("flat", "keyword", PairsKw(b), b) \cup CfgsOf("flat", "path", PairsKw(b), b)
           \cup CfgsOf("flat", "text", PairsText(b), b) \cup CfgsOf("flat", "exists", {<<Big, 0>>}, b)
      ELSE {})
-  \cup (IF "obj" \in Shapes
-          THEN UNION {CfgsOf("obj", t, PairsObj(b), b) : t \in {"keyword", "path", "text", "exists"}}
-          ELSE {})
+  \cup UNION {UNION {CfgsOf(sh, t, PairsObj(b), b) : t \in {"keyword", "path", "text", "exists"}} : sh \in Shapes \cap {"obj", "tags", "nested"}}
   \cup (IF "multi" \in Shapes THEN CfgsOf("multi", "multi", PairsKw(b), b) ELSE {})
+  \cup UNION {CfgsOf(sh, "multi", PairsObj(b), b) : sh \in Shapes \cap {"objmulti", "tagsmulti", "nestedmulti"}}
 
 \* random draws live in parameterised operators (TLC folds zero-arity definitions into constants)
 RandClass(v) == RandomElement(IF v = <<>> THEN Firsts ELSE Alphabet)
@@ -465,30 +555,29 @@ Next == Extend \/ Pick
 Spec == Init /\ [][Next]_vars
 
 \* ---------------------------------------------------------------- emission
-MappingSeq(c) == LET M == MappingOf(c)
-                     names == CASE c.shape = "flat" -> <<"Fld", "Uid">>
-                                [] c.shape = "obj" -> <<"Ob", "Ob.Mem", "Uid">>
-                                [] OTHER -> <<"Fld", "Fld.kw", "Fld.pa", "Uid">>
-                 IN [i \in 1..Len(names) |-> [name |-> names[i], main |-> M[names[i]].main, all |-> M[names[i]].all]]
+\* the expected converted mapping as the list of map assignments (the driver compares it, last assignment wins, with what the
+\* real seq.ReadMapping makes of the declared mapping)
+MappingSeq(c) == LET A == Assignments(c)
+                 IN [i \in 1..Len(A) |-> [name |-> A[i][1], main |-> A[i][2].main, all |-> A[i][2].all]]
 ExistsUnits(style, title) == CASE style = "dq" -> <<Meta("\""), Meta(title), Meta("\"")>>
                                [] style = "sq" -> <<Meta("'"), Meta(title), Meta("'")>>
                                [] style = "bq" -> <<Meta("`"), Meta(title), Meta("`")>>
                                [] OTHER -> <<Meta(title)>>
 ProbeOut(p, c, idx) ==
   LET S == StylesFor(p) IN
-  [title |-> p.title, kind |-> p.kind, dem |-> p.dem, gap |-> ProbeGap(p, c),
+  [title |-> p.title, kind |-> p.kind, dem |-> p.dem,
    q |-> [j \in 1..Len(S) |-> [s |-> S[j],
                                u |-> IF p.kind = "exists" THEN ExistsUnits(S[j], p.lit) ELSE Render(S[j], p.a),
                                u2 |-> IF HasAlt(p) THEN Render(AltStyle(S[j]), p.a2) ELSE <<>>,
                                f |-> ProbeFinds(p, S[j], c, idx)]]]
 IdxOut(c, idx) == LET T == Targets(c) IN
                   [i \in 1..Len(idx) |-> [key |-> idx[i].key, a |-> idx[i].a, a2 |-> WholeRunes(idx[i].a), lit |-> idx[i].lit,
-                                          ex |-> \E j \in 1..Len(T) : T[j][1] = idx[i].key /\ Exempt(T[j][2], c, idx[i].a),
-                                          gap |-> \E j \in 1..Len(T) : T[j][1] = idx[i].key /\ Gap(T[j][2], c, idx[i].a)]]
-CaseOut(c, idx, P) == [val |-> val, cfg |-> c, map |-> MappingSeq(c), doc |-> DocOf(c), idx |-> IdxOut(c, idx),
+                                          m |-> idx[i].m,
+                                          ex |-> \E j \in 1..Len(T) : T[j][1] = idx[i].key /\ Exempt(T[j][2], c, idx[i].a)]]
+CaseOut(c, idx, P) == [val |-> val, cfg |-> c, decl |-> Declared(c), map |-> MappingSeq(c), doc |-> DocOf(c), nmeta |-> NMetas(c), idx |-> IdxOut(c, idx),
                        probes |-> [i \in 1..Len(P) |-> ProbeOut(P[i], c, idx)]]
 Emit == ~Active \/ LET idx == Index(cfg)  P == Probes(cfg) IN PrintT(<<"CASE", ToJson(CaseOut(cfg, idx, P))>>)
-\* ... and in one pass (index and probes computed once per state): checks the four, names the first one that fails, emits the case
+\* ... and in one pass (index and probes computed once per state): checks them, names the first one that fails, emits the case
 Named(ok, name) == ok \/ (PrintT(<<"FAILED", ToJson(name)>>) /\ FALSE)
 CheckAndEmit ==
   ~Active \/ LET idx == Index(cfg)  P == Probes(cfg) IN
@@ -496,6 +585,12 @@ CheckAndEmit ==
              /\ Named(NoUnproducibleTokenOn(cfg, idx, P), "NoUnproducibleToken")
              /\ Named(RenderLexRoundTripOn(cfg, P), "RenderLexRoundTrip")
              /\ Named(LowerShortcutSoundOn(cfg), "LowerShortcutSound")
-             /\ Named(DeviationIsExactOn(cfg, idx, P), "DeviationIsExact")
+             /\ Named(NoCutRuneOn(idx), "NoCutRune")
+             /\ Named(CutIgnoresIvKindOn(val), "CutIgnoresIvKind")
              /\ PrintT(<<"CASE", ToJson(CaseOut(cfg, idx, P))>>)
+
+\* ---------------------------------------------------------------- mutants of the specification (must be REJECTED by TLC: the
+\* invariants are not vacuous).  Tokenize_mut_lookback.cfg: LookBack <- LookBackMut; Tokenize_mut_title.cfg: MainTitle <- MainTitleMut
+LookBackMut == UTFMax - 2
+MainTitleMut(fn, el) == el.name
 =============================================================================
